@@ -385,7 +385,14 @@ def check_casts(ctx, rep):
             if nm == "serde::Serializer::serialize_f64" or is_f64_entry:
                 n += 1
                 gs = [repr(g) for g in G.guards_at(b, bi)]
-                fin = any(("is_finite" in g and "True" in g) or ("is_nan" in g and "False" in g) for g in gs)
+                fin = any(("is_finite" in g and "True" in g) for g in gs)
+                if not fin:
+                    # the same fact along every path instead of at a dominating edge (an early `return` for the non-finite case,
+                    # a helper that classifies the value): each path to the site carries `is_finite(v)` true
+                    from rules import pathcond as PC
+
+                    paths = PC.enumerate_paths(b, lambda x, bb=bi: x == bb)
+                    fin = bool(paths) and all(any(a.startswith("is_finite(") and tr for a, tr in p[1]) for p in paths)
                 key = "finite:%s:%s" % ((b.rec.get("impl") or {}).get("self_adt", "?").split("::")[-1], "serialize_entry<f64>" if is_f64_entry else "serialize_f64")
                 if fin:
                     rep.ok("R-CAST", key, b.where(bi), "guarded by a finiteness test")
